@@ -71,7 +71,7 @@ var unconfirmedLog []any
 type sessionFn func(t triple, sid sessionID, mon *lib.Monitor) (lines, verdicts []string)
 
 var sessionKinds = map[string]sessionFn{
-	"triple": runSession, "tween": runTweenSession, "race": runRaceSession, "gap": runGapSession, "keyed": runKeyedSession,
+	"triple": runSession, "tween": runTweenSession, "race": runRaceSession, "gap": runGapSession, "keyed": runKeyedSession, "masks": runMaskSession, "composite": runCompositeSession,
 }
 
 // runConfirmed runs one session against a scratch monitor. Every verdict of the stack involves time somewhere
@@ -176,6 +176,16 @@ func runChildSide(f lib.Flags, res *lib.Result, key string) {
 		}
 		for q := 0; q < sessionsOf(f); q++ {
 			exec(t, sessionID{Kind: "triple", Triple: t.key(), Seed: f.Seed, Seq: q, Steps: stepsOf(q)})
+		}
+		// every read-mask path of the resource's descriptor (exhaustive below 3 levels up to the step budget)
+		for q := 0; q < f.N(2, 8); q++ {
+			exec(t, sessionID{Kind: "masks", Triple: t.key(), Seed: f.Seed, Seq: q, Steps: f.N(60, 400)})
+		}
+		// registers composed of collection items (discovered by shape + probe): the composed-register model as a simulator
+		if compositeShape(t) != nil {
+			for q := 0; q < f.N(16, 200); q++ {
+				exec(t, sessionID{Kind: "composite", Triple: t.key(), Seed: f.Seed, Seq: q, Steps: 6 + q%10})
+			}
 		}
 		// update-while-subscribing scenarios on every triple with an Update RPC: "gap" deterministic through the
 		// yield point before the listener is registered, "race" by timing only
